@@ -512,6 +512,29 @@ pub fn read_font(data: &[u8]) -> Result<ParsedFont, String> {
     })
 }
 
+/// (advance, lsb) per glyph from maxp / hhea / hmtx alone (works for CFF-flavoured fonts too).
+pub fn read_hmtx(data: &[u8]) -> Result<Vec<(u16, i16)>, String> {
+    let maxp = find_table(data, b"maxp").ok_or("maxp missing")?;
+    let hhea = find_table(data, b"hhea").ok_or("hhea missing")?;
+    let hmtx = find_table(data, b"hmtx").ok_or("hmtx missing")?;
+    let n = u16at(maxp, 4)? as usize;
+    let nhm = u16at(hhea, 34)? as usize;
+    if nhm == 0 && n > 0 {
+        return Err("numberOfHMetrics is 0".into());
+    }
+    let mut v = Vec::with_capacity(n);
+    let mut last = 0u16;
+    for g in 0..n {
+        if g < nhm {
+            last = u16at(hmtx, 4 * g)?;
+            v.push((last, i16at(hmtx, 4 * g + 2)?));
+        } else {
+            v.push((last, i16at(hmtx, 4 * nhm + 2 * (g - nhm))?));
+        }
+    }
+    Ok(v)
+}
+
 /// Points of a glyph in font units with composites resolved one level or more deep
 /// (offsets added, anchor points matched, 2.14 transforms applied as x' = a·x + c·y,
 /// y' = b·x + d·y for the file order a b c d). None if a reference is out of range or nesting
